@@ -5,11 +5,12 @@ Results -> benign/results.json"""
 import json, os, subprocess, sys, time
 os.environ["VERIF_EVIDENCE_DIR"] = "/tmp/verif-trial-evidence"
 os.environ["VERIF_REPLAYS_DIR"] = "/tmp/verif-trial-replays"
-V = "/verif"
+V = os.path.dirname(os.path.dirname(os.path.abspath(__file__)))
+REPO = os.environ.get("VERIF_REPO", REPO)
 ALL = ["C%02d" % i for i in range(1, 18)]
 def sh(cmd, cwd=None):
     return subprocess.run(cmd, shell=True, cwd=cwd, capture_output=True, text=True)
-assert sh("git diff --quiet", "/repo").returncode == 0, "/repo dirty"
+assert sh("git diff --quiet", REPO).returncode == 0, "/repo dirty"
 names = [a for a in sys.argv[1:]] or sorted(f[:-5] for f in os.listdir(os.path.join(V, "benign")) if f.endswith(".diff"))
 out = {}
 try:
@@ -18,12 +19,12 @@ except Exception:
     pass
 for n in names:
     p = os.path.join(V, "benign", n + ".diff")
-    r = sh("git apply " + p, "/repo")
+    r = sh("git apply " + p, REPO)
     if r.returncode != 0:
         print(n, "does not apply", r.stderr[-200:]); continue
-    res = {"note": open(os.path.join(V, "benign", n + ".txt")).read().strip(), "repo_head": sh("git log --format=%h -1", "/repo").stdout.strip(), "checks": {}}
+    res = {"note": open(os.path.join(V, "benign", n + ".txt")).read().strip(), "repo_head": sh("git log --format=%h -1", REPO).stdout.strip(), "checks": {}}
     try:
-        b = sh("CARGO_NET_OFFLINE=true cargo nextest run --workspace --no-fail-fast --test-threads 8 --offline 2>&1 | tail -1", "/repo")
+        b = sh("CARGO_NET_OFFLINE=true cargo nextest run --workspace --no-fail-fast --test-threads 8 --offline 2>&1 | tail -1", REPO)
         res["baseline"] = b.stdout.strip()
         for c in ALL:
             o = sh("./check %s quick" % c, V)
@@ -34,9 +35,9 @@ for n in names:
                 res.setdefault("alarms", {})[c] = lines
                 print(n, c, verdict, lines[:2])
     finally:
-        sh("git reset -q --hard HEAD; git clean -fdq src tests", "/repo")
+        sh("git reset -q --hard HEAD; git clean -fdq src tests", REPO)
     quiet = all(v == "OK" for v in res["checks"].values())
     print(n, "baseline:", res.get("baseline", "")[-40:], "| all quiet" if quiet else "| ALARMS")
     out[n] = res
     json.dump(out, open(os.path.join(V, "benign", "results.json"), "w"), indent=1)
-assert sh("git diff --quiet", "/repo").returncode == 0
+assert sh("git diff --quiet", REPO).returncode == 0
